@@ -524,6 +524,11 @@ fn h_cmp_fs_pass() {
     match res {
         None => {
             assert!(input_after < input_before, "a pass without result consumes input (termination measure)");
+            if successes > 0 {
+                assert!(v.uread == 0 && v.pending == 0 && !v.saw_end, "after the end of a block (even one that ends without output) the next one starts with a fresh decoder and a zero counter");
+            } else {
+                assert!(v.uread == uread, "a pass that returned nothing did not change the per-block output counter");
+            }
         }
         Some(Ok(n)) => {
             assert!(n <= blen, "never more than the buffer");
